@@ -216,6 +216,14 @@ def h_aligned(sx, cfg):
         sx.check("non-mesh-refused", True)
     else:
         sx.check("non-mesh-refused", False)
+    # far-away origins (native): the allowed misalignment must not grow with the distance in cells
+    with sx.native():
+        for N, shift in ((50, 5e-4), (400, 4e-3), (1000, 1e-2), (4000, 2e-2), (123456, 0.3)):
+            far = df.Mesh(p1=[pmin[a] + (N + shift) * c[a] for a in range(nd)], p2=[pmin[a] + (N + shift + n[a]) * c[a] for a in range(nd)], n=n)
+            sx.check(f"far-shifted-not-aligned[{N}]", not m1.is_aligned(far))
+            on = df.Mesh(p1=[pmin[a] + N * c[a] for a in range(nd)], p2=[pmin[a] + (N + n[a]) * c[a] for a in range(nd)], n=n)
+            if all(float(v).is_integer() for v in list(c) + list(pmin)):
+                sx.check(f"far-whole-cells-aligned[{N}]", bool(m1.is_aligned(on)))
 
 
 def _overlap_expected(layout, ax, j0, j1, pmin, c, nd, plane):
